@@ -379,9 +379,11 @@ func (sp *Spec) build() (func(), func(x *vsched.Exec) (string, error)) {
 				}
 				r.Close()
 				vsched.HLock()
-				for p := range consPipes[ci] {
-					in.closedN[p]++
-					vsched.Note(p)
+				for p := 0; p < len(sp.Pipes); p++ { // ascending: the order of the notes is part of the state key
+					if consPipes[ci][p] {
+						in.closedN[p]++
+						vsched.Note(p)
+					}
 				}
 				vsched.HUnlock()
 				in.consDone[ci] = true
